@@ -271,6 +271,17 @@ def run_world(case):
                 if type(ev) is EV.BackOff:
                     plog.append('B:' + frac(ev.delay))
                     finish_connection(ws)
+                    # (C17) the application touches the websocket BETWEEN two connections - while it handles BackOff
+                    for t in (case.get('touch') or {}).get(str(cur['i']), []):
+                        try:
+                            if t == 'close':
+                                ws.close()
+                            elif t == 'send':
+                                ws.send_text(u'between connections')
+                            elif t == 'look':
+                                (ws.is_closed, ws.is_closing, ws.is_active)
+                        except Exception:  # noqa - refused calls are fine; the next connection must not notice
+                            pass
                     continue
                 wld, sc = cur['world'], cur['sc']
                 tok = W.show_event(ev)
